@@ -88,6 +88,7 @@ type Contract struct {
 	ensures  []*Clause
 	lets     []letStmt // executed after the call, before ensures (forking allowed)
 	prelets  []letStmt // executed before the call
+	examples []*Clause // extra constraints of the vacuity probe only
 	foralls  []qvar    // contract-level universally quantified variables
 	nilParams []string // parameters bound to nil
 	callAsserts []*Clause // label = callee name
@@ -612,6 +613,14 @@ func (cs *ContractSet) parseFile(pkg, path, src string) error {
 			} else {
 				cur.prelets = append(cur.prelets, l)
 			}
+		case "example":
+			// example <bool expr>: narrows the search of the precondition-satisfiability probe only
+			// (a model found under an extra constraint is still a model of the preconditions)
+			e, _, err := parseExpr(rest)
+			if err != nil {
+				return errf("%v", err)
+			}
+			cur.examples = append(cur.examples, &Clause{text: rest, expr: e, line: ln + 1})
 		case "local":
 			// the contract is not applied at call sites by default (only where a caller says "summarise")
 			cur.modular = false
